@@ -178,6 +178,30 @@ pub fn run(ctx: &Ctx, rep: &mut Report) {
         }
         check(&s, &format!("random:{}", i), rep, false);
     });
+    // literal runs with multi-byte characters (2, 3 and 4 bytes, combining marks, exotic blanks, controls)
+    // before, between and after directives and escapes: byte offsets and character counts differ there
+    let mb = ['\u{e9}', '\u{df}', '\u{4e2d}', '\u{1f600}', '\u{301}', '\u{a0}', '\u{3000}', '\u{2028}', '\u{1}', '\u{7f}', '\u{feff}', '\t', '\n', 'a', ' ', '"', '~'];
+    let pieces = ["%p", "%f", "%%", "%s", "%{fid}", "%A@", "%TY", "%{xattr:user}", "\\n", "\\t", "\\\\", "\\101", "\\0", "\\q", "%m", "%d", "\\c", "%", "\\"];
+    let n_mb = ctx.pick(4_000, 2_000_000);
+    par_cases(ctx, "multibyte", n_mb, rep, |i, rep| {
+        let mut r = Rng::for_case(ctx.seed, "multibyte", i);
+        let k = 1 + r.usize(5);
+        let mut s = String::new();
+        for j in 0..k {
+            let run = if j == 0 { 1 + r.usize(4) } else { r.usize(4) };
+            for _ in 0..run {
+                s.push(*r.pick(&mb));
+            }
+            if r.chance(5, 6) {
+                s.push_str(*r.pick(&pieces));
+            }
+        }
+        if r.chance(1, 2) {
+            s.push(*r.pick(&mb));
+        }
+        rep.count("multibyte_strings");
+        check(&s, &format!("multibyte:{}", i), rep, false);
+    });
     if ctx.only.is_none() {
         rep.floor("accepted and rejected formats both observed", rep.get("accepted") > 100 && rep.get("rejected") > 100);
     }
